@@ -637,6 +637,14 @@ func run(c *vf.Ctx) {
 		}
 	}
 
+	// ---- copies of one signed frame that meet NO session object at the receiver (first contact, or the cleaner removed
+	// the idle one), each handled with the router's per-frame session lookup, over a storage that is not instant
+	traces += lookupHistories(c, rng, &hseq, &events)
+
+	// a signed frame replayed after the receiver's session cleaner removed the idle session (judged on its own: an
+	// open known finding on this tree)
+	traces += cleanReplay(c, rng)
+
 	rejectAt, inv, tres, err := c.TraceCheck("SeqWindow_Trace", "SeqWindow_Trace.cfg", events, vf.TLCOpts{Timeout: 20 * time.Minute, Heap: "8g"})
 	if err != nil {
 		c.Fatal("T: %v", err)
@@ -674,8 +682,25 @@ func run(c *vf.Ctx) {
 		if ev["ev"] == "nokeys" {
 			kind = "no-keys"
 		}
+		if ev["ev"] == "cleaned" {
+			kind = "cleaner"
+		}
+		detail := ""
+		if binding == lookupBinding && ev["ev"] == "tcheck" {
+			// name what the receiver did with the copies of this frame (the verdict is TLC's, this is its wording)
+			acc := 0
+			for _, e := range hist {
+				if m := e.(map[string]any); m["ev"] == "tcheck" && m["t"] == ev["t"] && m["ok"] == true {
+					acc++
+				}
+			}
+			detail = fmt.Sprintf(": the signed frame with stamp %v arrived as %v copies while the receiver's session for the sender was %v; each copy was handled as GetSession(src)+Unseal by a worker of its own; the receiver used %v different session objects for them and this stamp has unsealed successfully %d times so far", ev["t"], ev["copies"], ev["session"], ev["session_objects"], acc)
+			if n, _ := ev["session_objects"].(int); n > 1 {
+				kind += "/several-session-objects"
+			}
+		}
 		c.Violation(vf.Key("trace", binding, kind),
-			fmt.Sprintf("%s: trace line %d (%v) is not allowed by SeqWindow_Trace after history of %d deliveries", binding, rejectAt, ev, len(hist)-1),
+			fmt.Sprintf("%s: trace line %d (%v) is not allowed by SeqWindow_Trace after history of %d deliveries%s", binding, rejectAt, ev, len(hist)-1, detail),
 			map[string]any{"binding": binding, "history": hist, "rejected_event": ev}, nil)
 	}
 	c.Logf("T: %d events in %d traces validated", len(events), traces)
